@@ -66,9 +66,25 @@ def step? : List String → Option String
       | none => "bad-op"
     | _ => "bad-op"
   | ["jpg-rstfilter", hx] => some ("ok " ++ bytesToHex (JpegAddr.scanFilter (hexToBytes hx)))
+  | ["jpg-rstsplit", ri, hx] => some <| match ri.toNat? with
+    | some ri => "ok " ++ " ".intercalate ((JpegAddr.scanIntervals ri (hexToBytes hx)).map bytesToHex)
+    | none => "bad-op"
+  | ["jpg-mcuinterval", ri, n] => some <| match nats? [ri, n] with
+    | some [ri, n] => let r := JpegAddr.mcuInterval ri n; s!"ok {r.1} {if r.2 then 1 else 0}"
+    | _ => "bad-op"
+  | ["jpg-category", v] => some <| match v.toInt? with
+    | some v => let r := Dct.encodeCategory v; s!"ok {r.1} {r.2}"
+    | none => "bad-op"
+  | ["jpg-extend", n, b] => some <| match nats? [n, b] with
+    | some [n, b] => s!"ok {Dct.extend n b}"
+    | _ => "bad-op"
+  | ["j2k-encstep", m, e, nb] => some <| match m.toNat?, e.toInt?, nb.toInt? with
+    | some m, some e, some nb => s!"ok {J2kQuant.encodeStepDyadic m e nb}"
+    | _, _, _ => "bad-op"
+  | ["jpg-detect", hx] => some s!"ok {Dct.detectBitDepth (hexToBytes hx)}"
   | ["jpg-rstfilter-tie"] => some "ok true"
   | ["jpg-repack-len", w, h] => some <| match nats? [w, h] with
-    | some [w, h] => s!"ok {JpegAddr.pixLen w h}"
+    | some [w, h] => s!"ok {JpegAddr.repackDst w (w - 1) (h - 1) + 1}"
     | _ => "bad-op"
   | ["j2k-decstep", w, p, g] => some <| match nats? [w, p, g] with
     | some [w, p, g] =>
